@@ -64,7 +64,9 @@ func initCrashImages(res *ShardResult) {
 	}
 }
 
-func init() { engines["C03INIT"] = func() *ShardResult { res := newResult(); initCrashImagesChild(res); return res } }
+func init() {
+	engines["C03INIT"] = func() *ShardResult { res := newResult(); initCrashImagesChild(res); return res }
+}
 
 func initCrashImagesChild(res *ShardResult) {
 	add := func(name, msg string) {
